@@ -126,7 +126,7 @@ func (e *Env) DrawC10(rt *rapid.T) C10Case {
 				r.Outcome = o
 			} else {
 				// outcomes must be representable in every version that may carry them
-				olim := rc.Limits{MaxStr: 24, MaxElems: 3, ASCII: true, Finite: true}
+				olim := rc.Limits{MaxStr: 24, MaxElems: 3, ASCII: true, Finite: true, BigStr: c.Proto == "tcp" && rapid.IntRange(0, 3).Draw(rt, "bigout") == 0}
 				r.Outcome = e.DrawOutcome(rt, f, olim, true)
 				switch c.Scenario {
 				case "queue-timeout":
@@ -165,7 +165,9 @@ func (e *Env) DrawC10(rt *rapid.T) C10Case {
 					}
 					seen[f.Name+"|"+key.String()] = o
 				}
-			} else if rapid.Bool().Draw(rt, "tiny") {
+			} else if r.Kind == "call" && rapid.Bool().Draw(rt, "tiny") {
+				// (only ordinary calls: whether an expired ping is a ping or a queue timeout
+				// is not decided by the property)
 				r.ITimeout = int32(rapid.IntRange(1, 50).Draw(rt, "tinyTimeout"))
 			}
 		}
